@@ -385,15 +385,16 @@ def r7_constants_eval(run: Run, src):
 
 
 def run(run: Run):
+    from .common import cached_guard as _cached_guard
     src = get_source()
     g = get_grammar(src)
     em = get_emission(src)
     run.rule('C07.R1', 'no workbook-derived text reaches generated source without repr()/numeric conversion/closed vocabulary')
     run.rule('C07.R2', 'quote-delimited terminals cannot run over their closing quote')
     run.rule('C07.R3', 'quoting does not depend on the safety-check setting')
-    run.guard('C07.R1', r1_emission, run, src, g, em)
-    run.guard('C07.R1', r1_constants, run, src, g)
-    run.guard('C07.R1', r1_format_args, run, src)
+    _cached_guard(run, 'C07.R1', r1_emission, src, g, em)
+    _cached_guard(run, 'C07.R1', r1_constants, src, g)
+    _cached_guard(run, 'C07.R1', r1_format_args, src)
     # R2 shares its analysis with C05.R5
     sub = Run('C05', run.tier, run.seed, quiet=True)
     sub.rule('C05.R5', '')
@@ -405,7 +406,7 @@ def run(run: Run):
         run.bad('C07.R2', f['construct'], f['sub'], f['message'], loc=f['loc'])
     for e in sub.errors:
         run.errors.append(e)
-    run.guard('C07.R3', r3, run, src)
+    _cached_guard(run, 'C07.R3', r3, src)
     # a constant text cell is data only as long as nothing but a leading "=" makes a cell a formula: shared with C18.R4
     from .common import borrow
     from . import c18
@@ -420,7 +421,7 @@ def run(run: Run):
     borrow(run, 'C07.R6', c17.r6, src, g, em)
     run.floor('C07.R6', 2)
     run.rule('C07.R7', 'a constant cell is printed as one literal that evaluates back to the constant (any characters, any length)')
-    run.guard('C07.R7', r7_constants_eval, run, src)
+    _cached_guard(run, 'C07.R7', r7_constants_eval, src)
     run.floor('C07.R7', 40)
     run.floor('C07.R1', 70)
     run.floor('C07.R2', 2)
@@ -429,7 +430,7 @@ def run(run: Run):
     from ..grammar import get_grammar as _gg7
     run.rule('C07.R9', 'awkward sheet titles, constant texts and formula literals come back as the texts they are, end to end by evaluation '
                        '(translation, class text, evaluation of the class text)')
-    run.guard('C07.R9', _pe7.hostile_obligations, run, 'C07.R9', src, _gg7(src))
+    _cached_guard(run, 'C07.R9', _pe7.hostile_obligations, 'C07.R9', src, _gg7(src))
     run.floor('C07.R9', 40)
     from .common import shared_mechanisms as _shared
     _shared(run, 'C07', 8, ['rejections'])
